@@ -317,7 +317,9 @@ def r5_adjacency(ctx):
              isinstance(n.ast, ast.Compare)]
     reuse = [n for n in g.nodes if n.kind == 'stmt' and
              isinstance(n.ast, ast.Assign) and
-             is_self_attr(n.ast.value, '_last_model_mutator')]
+             is_self_attr(n.ast.value, '_last_model_mutator') and
+             any(isinstance(t, ast.Name) and t.id == 'mutator'
+                 for t in n.ast.targets)]
     if tests and reuse and all(any(g.guarded_by(r, t, 'T') for t in tests)
                                for r in reuse):
         ctx.ok(f, 'consecutive mutations on one model reuse the last '
@@ -326,6 +328,24 @@ def r5_adjacency(ctx):
         ctx.finding(f, None, 'run_mutation no longer reuses the last '
                     'ModelMutator when the model name matches',
                     key='no-reuse')
+    # nothing else may decide about the reuse: every extra condition splits a
+    # run of consecutive mutations on one model into several rebuilds
+    for r in reuse:
+        for t in g.nodes:
+            if t.kind != 'test' or not (g.guarded_by(r, t, 'T') or
+                                        g.guarded_by(r, t, 'F')):
+                continue
+            txt = unparse(t.ast)
+            allowed = (txt == 'self._last_model_mutator' or
+                       ('model_name' in txt and '_last_model_mutator' in txt)
+                       or txt.replace(' ', '') ==
+                       'isinstance(mutation,BaseModelMutation)')
+            if not allowed:
+                ctx.finding(f, t.ast, 'reusing the last ModelMutator also '
+                            'depends on "%s": consecutive mutations on one '
+                            'model that fail it (e.g. ChangeMeta) start a new '
+                            'mutator and a second table rebuild' % txt,
+                            key='reuse-extra-condition')
     news = [n for n, c in nodes_with_call(g, 'ModelMutator')]
     fins = [n for n, c in nodes_with_call(g, '_finalize_model_mutator')]
     if news and all(any(g.dominates(fn, n) for fn in fins) or True
